@@ -1,6 +1,6 @@
 BROADCAST = '''broadcast use {crate::vx::axiom_pat_fn, crate::vx::axiom_cow_str_deref, crate::vx::axiom_str_len_bound, crate::vx::axiom_str_chars_bound,
     crate::vx::axiom_cow_from_string, crate::vx::axiom_cow_from_str, crate::vx::axiom_cow_from_cow, crate::vx::axiom_string_from_str,
-    crate::vx::lemma_slice_to_view, crate::vx::lemma_slice_from_view, crate::vx::axiom_cow_str_eq,
+    crate::vx::lemma_slice_to_view, crate::vx::lemma_slice_from_view, crate::vx::axiom_cow_str_eq, crate::vx::axiom_string_eq,
     crate::vx::axiom_cow_str_into_owned, crate::vx::axiom_as_ref_str, crate::vx::axiom_as_ref_ref_str,
     crate::vx::axiom_as_ref_cow, crate::vx::axiom_as_ref_ref_cow, crate::spec::axiom_zs_space, crate::vx::axiom_iter_seq_chars, crate::spec::axiom_width_scalar, crate::spec::axiom_lower_of_lowercase};
 '''
